@@ -86,9 +86,23 @@ def scenario(kind, res, lean_lines, meta):
         def P(rel):          # absolute bytes path of a relative bytes name
             return os.path.join(rootB_abs, rel)
 
-        def step(fn, *names):
+        def step(fn, *names, see=None):
+            """one operation, then the stream is given time to drain (the property's pacing condition): wait until the
+            native observer has delivered an event that names the entry (a fixed pause is not enough on a loaded
+            machine: the next operation would touch a directory whose rename is still being translated)"""
             fn()
             existed.update(names)
+            target = see if see is not None else (names[0] if names else None)
+            deadline = time.monotonic() + 10
+            while target is not None and time.monotonic() < deadline:
+                hit = False
+                for e in list(recs["native"].events):
+                    for pth in (e.src_path, e.dest_path):
+                        if pth not in ("", b"", None) and os.fsencode(pth).endswith(b"/" + target):
+                            hit = True
+                if hit:
+                    break
+                time.sleep(0.01)
             time.sleep(0.16)
 
         def touch(rel):
@@ -106,8 +120,8 @@ def scenario(kind, res, lean_lines, meta):
         step(lambda: os.rename(P(b"a"), P(b"b")), b"b", b"b/metadata", b"b/metadata/archive")
         step(lambda: touch(b"b/metadata/archive/f.txt"), b"b/metadata/archive/f.txt")
         step(lambda: os.rename(P(b"dd/x"), P(b"w/" + NAMES[3])), b"w/" + NAMES[3])
-        step(lambda: os.unlink(P(NAMES[2])))
-        step(lambda: shutil.rmtree(P(b"dd")))
+        step(lambda: os.unlink(P(NAMES[2])), see=NAMES[2])
+        step(lambda: shutil.rmtree(P(b"dd")), see=b"dd")
         time.sleep(0.3)
         for o in observers:
             o.stop()
@@ -179,6 +193,9 @@ def double_schedule(cls_name):
         fd = os.open(os.path.join(base, "f"), os.O_CREAT | os.O_WRONLY)
         os.close(fd)
         time.sleep(0.4)
+        deadline = time.monotonic() + 10          # a loaded machine: wait until both handlers have heard of it
+        while (not rs.events or not rb.events) and time.monotonic() < deadline:
+            time.sleep(0.05)
         for r, want in ((rs, str), (rb, bytes)):
             if not r.events:
                 return f"{cls_name}: the handler scheduled with a {want.__name__} path received nothing"
